@@ -15,7 +15,7 @@ VALUES: List[Any] = [
     0.0, -0.0, 1.0, 1e-320, 1.5, 1e308, float("inf"), float("-inf"), float("nan"),
     True, False,
     "", "True", "1", "é", " ", "\ud800",
-    b"", b"\x00\xff", b"abcd",
+    b"", b"\x00\xff", b"abcd", b"\xfb\xff\xfe",
 ]
 STEPS = ["retry", "requeue"]
 
@@ -23,7 +23,7 @@ META = {
     "kind": "graph",
     "engine": "E3: closed-loop enumeration of label dictionaries x delivery histories, and explicit-state BFS over kicker operation sequences, against reference models",
     "rule": (
-        "(a) every label dictionary of <= 2 entries over a 25-value alphabet of the five primitive types (ints 0, 1, -1, 2^63, "
+        "(a) every label dictionary of <= 2 entries over a 25-value alphabet (26 values) of the five primitive types (ints 0, 1, -1, 2^63, "
         "-2^200; floats 0.0, -0.0, 1.0, 1e-320, 1.5, 1e308, inf, -inf, nan; bools; str '', 'True', '1', 'e-acute', ' ', a lone "
         "surrogate; bytes b'', b'\\x00\\xff', b'abcd'), set on the task or on the kicker, through the JSON and pickle "
         "serializers, observed in a recording pre_execute middleware, in Context.message.labels and in the stored "
@@ -105,10 +105,15 @@ def run_label_case(labels: Dict[str, Any], where: str, ser: str, seq: Tuple[str,
         async def get_result(self, task_id: str, with_logs: bool = False) -> Any:
             raise KeyError(task_id)
 
+    seen_post: List[Dict[str, Any]] = []
+
     class Spy(TaskiqMiddleware):
         def pre_execute(self, message: Any) -> Any:
             seen_mw.append(dict(message.labels))
             return message
+
+        def post_execute(self, message: Any, result: Any) -> None:
+            seen_post.append(dict(message.labels))
 
     b = B()
     b.result_backend = RB()
@@ -171,7 +176,7 @@ def run_label_case(labels: Dict[str, Any], where: str, ser: str, seq: Tuple[str,
         acc.transitions += 1
         acc.count("deliveries_checked")
         via = "first delivery" if n == 0 else f"delivery after {seq[n - 1]}"
-        for src_name, got_all in (("middleware", seen_mw[n]), ("Context", seen_ctx[n])):
+        for src_name, got_all in (("middleware", seen_mw[n]), ("Context", seen_ctx[n]), ("post_execute middleware", seen_post[n] if n < len(seen_post) else {})):
             for k, v in labels.items():
                 g = got_all.get(k, "<missing>")
                 if not same(g, v):
